@@ -14,6 +14,8 @@ pub struct Ctl {
     pub fired: AtomicU64,
     pub count_reads: AtomicBool,
     pub count_writes: AtomicBool,
+    /// C13: run the small-buffer write workload instead of the main one
+    pub small_buffer: AtomicBool,
 }
 
 impl Ctl {
@@ -25,6 +27,7 @@ impl Ctl {
             fired: AtomicU64::new(0),
             count_reads: AtomicBool::new(reads),
             count_writes: AtomicBool::new(writes),
+            small_buffer: AtomicBool::new(false),
         })
     }
     fn hit(&self, is_read_side: bool) -> io::Result<()> {
@@ -390,7 +393,99 @@ struct WriteRun {
     handle_phase: (u64, u64),
 }
 
+/// A handle with the smallest buffer (1024): writes longer than the buffer flush from inside `write`.
+/// Every `write` call is judged on its own: `Ok(k)` = k bytes accepted, `Err` = none of this call's.
+fn write_workload_small(version: Version, ctl: Arc<Ctl>) -> WriteRun {
+    let mut run = WriteRun { transcript: vec![], bad: vec![], trace: vec![], handle_phase: (0, 0) };
+    let fired = |c: &Ctl| c.fired.load(Ordering::SeqCst);
+    // creation and the reopen with a small buffer are not under test here: no faults yet
+    ctl.count_writes.store(false, Ordering::SeqCst);
+    let inner = SharedFile::new(Vec::new());
+    let file = FaultyFile { inner: inner.clone(), ctl: ctl.clone(), seek_is_read: false };
+    let comp = CompoundFile::create_with_version(version, file).unwrap();
+    let file = comp.into_inner();
+    let mut comp = OpenOptions::new().max_buffer_size(1024).open_with(file).unwrap();
+    comp.create_stream("/old").unwrap().write_all(&pattern(3000, 77)).unwrap();
+    let mut s = comp.create_stream("/s").unwrap();
+    ctl.count_writes.store(true, Ordering::SeqCst);
+    run.handle_phase.0 = ctl.calls.load(Ordering::SeqCst);
+    let mut spec: Vec<u8> = Vec::new();
+    let mut cursor = 0usize;
+    let script: Vec<(&str, usize, u64)> = vec![
+        ("write", 3000, 1), ("flush", 0, 0), ("seek", 0, 0), ("write", 2600, 2), ("flush", 0, 0),
+        ("seek", 500, 0), ("write", 1200, 3), ("seek", 2900, 0), ("write", 1500, 4), ("flush", 0, 0),
+    ];
+    'ops: for (op, n, salt) in script {
+        let data = pattern(n, salt);
+        let mut off = 0usize;
+        let mut tries = 0;
+        loop {
+            let f0 = fired(&ctl);
+            let r: std::io::Result<usize> = match op {
+                "write" => s.write(&data[off..]),
+                "flush" => s.flush().map(|_| 0),
+                _ => s.seek(SeekFrom::Start(n as u64)).map(|_| 0),
+            };
+            let f1 = fired(&ctl);
+            match r {
+                Ok(k) => {
+                    if f1 > f0 {
+                        run.bad.push(format!("{} on the small-buffer handle returned Ok although an underlying call failed during it (error swallowed)", op));
+                    }
+                    match op {
+                        "write" => {
+                            let end = cursor + k;
+                            if spec.len() < end { spec.resize(end, 0); }
+                            spec[cursor..end].copy_from_slice(&data[off..off + k]);
+                            cursor = end;
+                            off += k;
+                            if off < data.len() && k > 0 {
+                                continue;
+                            }
+                        }
+                        "seek" => cursor = n,
+                        _ => {
+                            ctl.count_writes.store(false, Ordering::SeqCst);
+                            let mut v = Vec::new();
+                            let ok = comp.open_stream("/s").and_then(|mut f| f.read_to_end(&mut v)).is_ok();
+                            let bytes = inner.snapshot();
+                            let mut w = Vec::new();
+                            let r2 = CompoundFile::open(std::io::Cursor::new(bytes)).and_then(|mut c| c.open_stream("/s").and_then(|mut f| f.read_to_end(&mut w)));
+                            ctl.count_writes.store(true, Ordering::SeqCst);
+                            if !ok || v != spec {
+                                run.bad.push(format!("flush returned Ok but a fresh handle reads {} bytes (expected {}), first difference at {:?} (small buffer)", v.len(), spec.len(), v.iter().zip(spec.iter()).position(|(a, b)| a != b)));
+                            } else if r2.is_err() || w != spec {
+                                run.bad.push(format!("flush returned Ok but the file's bytes, reopened, give {} bytes for the stream (expected {}), first difference at {:?} (small buffer)", w.len(), spec.len(), w.iter().zip(spec.iter()).position(|(a, b)| a != b)));
+                            }
+                        }
+                    }
+                    run.transcript.push(format!("small {} ok", op));
+                    break;
+                }
+                Err(e) => {
+                    run.transcript.push(format!("small {} err {}", op, err_kind(&e)));
+                    if ctl.fired.load(Ordering::SeqCst) == 0 {
+                        run.bad.push(format!("{} on the small-buffer handle failed ({}) although no fault was ever injected", op, err_kind(&e)));
+                    }
+                    tries += 1;
+                    if tries >= 3 {
+                        break 'ops;
+                    }
+                }
+            }
+        }
+    }
+    let _ = s.flush();
+    drop(s);
+    run.handle_phase.1 = ctl.calls.load(Ordering::SeqCst);
+    let _ = comp.walk().count();
+    run
+}
+
 fn write_workload(version: Version, ctl: Arc<Ctl>) -> WriteRun {
+    if ctl.small_buffer.load(Ordering::SeqCst) {
+        return write_workload_small(version, ctl);
+    }
     let mut run = WriteRun { transcript: vec![], bad: vec![], trace: vec![], handle_phase: (0, 0) };
     let fired = |c: &Ctl| c.fired.load(Ordering::SeqCst);
     // --- create (retried from scratch) ---
@@ -611,11 +706,12 @@ pub fn write_campaign(seed: u64, max_runs: u64, ops_path: &str, impl_path: &str)
     let mut ops_out = String::new();
     let mut impl_out = String::new();
     let mut evaluations = 0u64;
-    for version in [Version::V3, Version::V4] {
+    for (version, small) in [(Version::V3, false), (Version::V4, false), (Version::V3, true), (Version::V4, true)] {
         let ctl = Ctl::new(false, true);
+        ctl.small_buffer.store(small, Ordering::SeqCst);
         let r0 = write_workload(version, ctl.clone());
         let n = ctl.calls.load(Ordering::SeqCst);
-        println!("STAT wcalls_v{} {}", if version == Version::V3 { 3 } else { 4 }, n);
+        println!("STAT wcalls_v{}{} {}", if version == Version::V3 { 3 } else { 4 }, if small { "_small_buffer" } else { "" }, n);
         for b in &r0.bad {
             println!("ORACLE fault-free run: {}", b);
         }
@@ -648,9 +744,10 @@ pub fn write_campaign(seed: u64, max_runs: u64, ops_path: &str, impl_path: &str)
             }
             v
         };
-        println!("STAT positions_v{} {}", if version == Version::V3 { 3 } else { 4 }, positions.len());
+        println!("STAT positions_v{}{} {}", if version == Version::V3 { 3 } else { 4 }, if small { "_small_buffer" } else { "" }, positions.len());
         for k in positions {
             let ctl = Ctl::new(false, true);
+            ctl.small_buffer.store(small, Ordering::SeqCst);
             ctl.fail_a.store(k, Ordering::SeqCst);
             let (tx, rx) = std::sync::mpsc::channel();
             let c2 = ctl.clone();
